@@ -20,6 +20,7 @@ TEXT = ("P1 (purity / effect analysis): the transitive callee closure inside the
         "named-group order of the parser's regex constants, for Revision and for DeltaId. P4: eq and hash read the same "
         "field set, partial_cmp = Some(cmp), cmp yields Equal only on equal printed forms, which cover every field. "
         "Does not decide collision-freeness of the 28-bit tail.")
+TECHNIQUE = 'static analysis over rustc MIR: field provenance of revision constructors, print/parse template agreement, Eq/Hash/Ord field-set consistency and symbolic evaluation of the comparator'
 TRUSTED = ["rustc nightly MIR", "sha2, hex, regex, serde_json behave as documented", "format_args! template encoding of this nightly (0xC0 = plain placeholder, n<0x80 = literal of n bytes)"]
 
 NONDET_PATH = ("std::time::", "std::env::", "std::thread::", "rand::", "getrandom", "std::hash::RandomState", "std::collections::hash_map::RandomState",
